@@ -10,6 +10,8 @@ import (
 	"path/filepath"
 	"sort"
 	"strings"
+	"sync"
+	"sync/atomic"
 
 	"github.com/ulikunitz/xz"
 
@@ -140,6 +142,57 @@ func checkC03(c *ev.Ctx) {
 	if thorough(c) {
 		nfresh, ngen = 10000, 100000
 	}
+	var admitted int64
+	var featMu sync.Mutex
+	featCount := map[string]int{}
+	judge := func(s validStream, i int) {
+		atomic.AddInt64(&admitted, 1)
+		featMu.Lock()
+		for _, f := range strings.Split(s.Feat, ";") {
+			if strings.HasPrefix(f, "chunks:") {
+				for _, k := range strings.Split(f[7:], ",") {
+					featCount["chunk_"+k]++
+				}
+			} else if s.Src == "refenc" {
+				featCount[f]++
+			}
+		}
+		featMu.Unlock()
+		if !want(c, s.ID) {
+			return
+		}
+		caps := []int{4096, 1 << 20}
+		if s.Decl > 4096 {
+			caps = append(caps, int(s.Decl-1))
+		}
+		if s.Decl > 0 && s.Decl < 1<<28 {
+			caps = append(caps, int(s.Decl), int(s.Decl+1))
+		}
+		if i%25 == 0 {
+			caps = append(caps, 0)
+		}
+		for _, dc := range caps {
+			out, err := libXZ(s.Bytes, xz.ReaderConfig{DictCap: dc})
+			cls := fmt.Sprintf("%s|%s|dc%s", s.Src, featClass(s.Feat), sizeClass(dc))
+			c.Eval(cls, len(s.Content) > 0)
+			if err != nil || !bytes.Equal(out, s.Content) {
+				what := fmt.Sprintf("valid stream %s (%s) read with ReaderConfig.DictCap=%d: error %v after %d of %d bytes", s.ID, s.Feat, dc, err, len(out), len(s.Content))
+				if err == nil {
+					what = fmt.Sprintf("valid stream %s (%s) read with ReaderConfig.DictCap=%d: %d bytes decoded, content differs from the reference at offset %d (reference %d bytes)", s.ID, s.Feat, dc, len(out), firstDiff(out, s.Content), len(s.Content))
+				}
+				sig := "valid-stream-rejected:" + s.Src
+				if err == nil {
+					sig = "valid-stream-wrong-bytes:" + s.Src
+				}
+				c.Violation(sig, map[string]any{"case_id": s.ID, "what": what, "stream_hex": ev.Hex(s.Bytes, 2048), "stream_len": len(s.Bytes), "declared_dict": s.Decl, "reader_dictcap": dc, "features": s.Feat})
+				break
+			}
+		}
+		c.Count("streams_from_"+s.Src, 1)
+		if i%211 == 0 {
+			c.Sample(map[string]any{"id": s.ID, "source": s.Src, "stream_bytes": len(s.Bytes), "content_bytes": len(s.Content), "declared_dict": s.Decl, "features": clipStr(s.Feat, 300), "reader_dictcaps": caps})
+		}
+	}
 	var streams []validStream
 	// (i) corpus
 	names, man := loadCorpus(c, "xz")
@@ -167,7 +220,6 @@ func checkC03(c *ev.Ctx) {
 		streams = append(streams, validStream{ID: "corpus:" + n, Src: "corpus", Bytes: b, Content: out, Decl: decl, Feat: strings.Join(man[n].Args, " ")})
 	}
 	// (ii) fresh liblzma encodings, (iii) generated: built in parallel, deterministic per index
-	fresh := make([]*validStream, nfresh)
 	if lzc.Available() {
 		par(nfresh, func(i int) {
 			r := prng.New(c.Seed, 3, uint64(i))
@@ -212,12 +264,11 @@ func checkC03(c *ev.Ctx) {
 					}
 				}
 			}
-			fresh[i] = &validStream{ID: fmt.Sprintf("fresh%d", i), Src: "liblzma", Bytes: res.Out, Content: data, Decl: decl, Feat: feat}
+			judge(validStream{ID: fmt.Sprintf("fresh%d", i), Src: "liblzma", Bytes: res.Out, Content: data, Decl: decl, Feat: feat}, i)
 		})
 	} else {
 		c.Set("liblzma_source", "skipped: liblzma not linked")
 	}
-	gens := make([]*validStream, ngen)
 	par(ngen, func(i int) {
 		r := prng.New(c.Seed, 4, uint64(i))
 		stream, content, feat := genXZContainer(r, thorough(c) || i%10 == 0)
@@ -255,7 +306,7 @@ func checkC03(c *ev.Ctx) {
 		c.Count("gen_ops_rep3", int64(st.Reps[3]))
 		c.Count("gen_matches_at_window_edge", int64(st.DistAtEdge))
 		c.Count("gen_matched_literals", int64(st.MatchedLits))
-		gens[i] = &validStream{ID: fmt.Sprintf("gen%d", i), Src: "refenc", Bytes: stream, Content: content, Decl: decl, Feat: feat}
+		judge(validStream{ID: fmt.Sprintf("gen%d", i), Src: "refenc", Bytes: stream, Content: content, Decl: decl, Feat: feat}, i)
 	})
 	// far distances: every distance slot a 16 MiB (thorough: 128 MiB) window can use
 	{
@@ -279,67 +330,10 @@ func checkC03(c *ev.Ctx) {
 			c.Set("far_distance_probes", probes)
 		}
 	}
-	for _, s := range fresh {
-		if s != nil {
-			streams = append(streams, *s)
-		}
-	}
-	for _, s := range gens {
-		if s != nil {
-			streams = append(streams, *s)
-		}
-	}
 	c.MinEvals(int64(len(names)))
-	c.Set("streams_admitted", len(streams))
-	featCount := map[string]int{}
-	par(len(streams), func(i int) {
-		s := streams[i]
-		if !want(c, s.ID) {
-			return
-		}
-		caps := []int{4096, 1 << 20}
-		if s.Decl > 4096 {
-			caps = append(caps, int(s.Decl-1))
-		}
-		if s.Decl > 0 && s.Decl < 1<<28 {
-			caps = append(caps, int(s.Decl), int(s.Decl+1))
-		}
-		if i%25 == 0 {
-			caps = append(caps, 0)
-		}
-		for _, dc := range caps {
-			out, err := libXZ(s.Bytes, xz.ReaderConfig{DictCap: dc})
-			cls := fmt.Sprintf("%s|%s|dc%s", s.Src, featClass(s.Feat), sizeClass(dc))
-			c.Eval(cls, len(s.Content) > 0)
-			if err != nil || !bytes.Equal(out, s.Content) {
-				what := fmt.Sprintf("valid stream %s (%s) read with ReaderConfig.DictCap=%d: error %v after %d of %d bytes", s.ID, s.Feat, dc, err, len(out), len(s.Content))
-				if err == nil {
-					what = fmt.Sprintf("valid stream %s (%s) read with ReaderConfig.DictCap=%d: %d bytes decoded, content differs from the reference at offset %d (reference %d bytes)", s.ID, s.Feat, dc, len(out), firstDiff(out, s.Content), len(s.Content))
-				}
-				sig := "valid-stream-rejected:" + s.Src
-				if err == nil {
-					sig = "valid-stream-wrong-bytes:" + s.Src
-				}
-				c.Violation(sig, map[string]any{"case_id": s.ID, "what": what, "stream_hex": ev.Hex(s.Bytes, 2048), "stream_len": len(s.Bytes), "declared_dict": s.Decl, "reader_dictcap": dc, "features": s.Feat})
-				break
-			}
-		}
-		c.Count("streams_from_"+s.Src, 1)
-		if i%211 == 0 {
-			c.Sample(map[string]any{"id": s.ID, "source": s.Src, "stream_bytes": len(s.Bytes), "content_bytes": len(s.Content), "declared_dict": s.Decl, "features": clipStr(s.Feat, 300), "reader_dictcaps": caps})
-		}
-	})
-	for _, s := range streams {
-		for _, f := range strings.Split(s.Feat, ";") {
-			if strings.HasPrefix(f, "chunks:") {
-				for _, k := range strings.Split(f[7:], ",") {
-					featCount["chunk_"+k]++
-				}
-			} else if s.Src == "refenc" {
-				featCount[f]++
-			}
-		}
-	}
+	// corpus and the far-distance stream (few, kept in memory) are judged last
+	par(len(streams), func(i int) { judge(streams[i], i) })
+	c.Set("streams_admitted", atomic.LoadInt64(&admitted))
 	c.Set("generated_feature_histogram", featCount)
 }
 
